@@ -406,6 +406,20 @@ theorem file_unphase_phase_eq_unphase (f f' : VcfFile) (hr : PhaseOnlyEdit f.rec
     (hh : f'.header.filter keepLine = f.header.filter keepLine) : unphaseFileFix f' = unphaseFileFix f := by
   simp only [unphaseFileFix, unphase_phase_eq_unphase hr, header_phase_only_edit _ _ hh]
 
+/-- **file_records_whatever_header** (round 7, seed C13-e): what the header says about phasing has no influence on the
+records.  For any two headers — in particular one that declares nothing (no `##phasing` line, no HP / PQ / PS definition;
+`Declared` is not assumed, htslib accepts undeclared keys) — the same records come out, and they carry no phased genotype and
+no HP / PQ / PS field.  The check evaluates this on the real `whatshap unphase` with *header twins*. -/
+theorem file_records_whatever_header (h h' : List C04.HLine) (rs : List Record) :
+    (unphaseFileFix ⟨h, rs⟩).records = (unphaseFileFix ⟨h', rs⟩).records ∧
+    ∀ r ∈ (unphaseFileFix ⟨h, rs⟩).records, ∀ c ∈ r.calls,
+      (∀ g, c.gt = some g → g.phased = false) ∧ (∀ kv ∈ c.fields, isPhaseTag kv.1 = false) :=
+  ⟨rfl, no_phase_left rs⟩
+
+/-- witness: an empty header, a genotype phased with `|` (one allele missing, so nothing is sorted) and an undeclared PS value -/
+example : (unphaseFileFix ⟨[], [⟨["chr1"], [⟨some ⟨[some 1, none], true⟩, [("PS", "7"), ("DP", "3")]⟩]⟩]⟩).records
+    = [⟨["chr1"], [⟨some ⟨[some 1, none], false⟩, [("DP", "3")]⟩]⟩] := by decide
+
 /-! ## the executable edit checker used by the check (`Spec/C13Edit.lean`) -/
 
 /-- **edit_checker_iff**: `editB` decides the phase-only-edit relation (permute the alleles of fully present genotypes,
